@@ -57,13 +57,13 @@ int main(int argc, char** argv) {
   std::string kinds = argc > 5 ? argv[5] : "counting,mcs,dissemination,topo,simple,pthread,system";
   galois::SharedMemSys G;
   auto& tp = galois::substrate::getThreadPool();
-  unsigned maxP = std::min(tp.getMaxThreads(), mode == "ctl" ? (thorough ? 5u : 4u) : (thorough ? 16u : 8u));
+  unsigned maxP = std::min(tp.getMaxThreads(), mode == "ctl" ? (thorough ? 5u : 4u) : (thorough ? 12u : 8u));
   const char* topo = getenv("GALOIS_VERIF_TOPO");
   vh::Rng rng(seed);
 #ifdef VERIF_FLAVOUR_C
   verif::on_abort(onAbort);
 #endif
-  unsigned execs = mode == "ctl" ? (thorough ? 400 : 60) : (thorough ? 60 : 12);
+  unsigned execs = mode == "ctl" ? (thorough ? 400 : 60) : (thorough ? 40 : 12);
   unsigned K = mode == "ctl" ? 3 : (thorough ? 300 : 60);
   size_t pos = 0;
   while (pos < kinds.size()) {
